@@ -9,9 +9,6 @@ for p in $props; do
   for f in regress/$p/F*.json; do
     [ -e "$f" ] || continue
     id=$(basename "$f" .json)
-    # F17d (a missing import inside the library) only shows in a process that has not imported
-    # pyformlang.regular_expression; the harness imports every sub-package before the first case (DESIGN 10.14)
-    if [ "$id" = F17d ]; then echo "$f skipped: cannot fail under the harness any more (sub-packages are pre-imported)"; continue; fi
     set -- $(python3 -c "import json,sys; e=[e for e in json.load(open('known_findings.json')) if e['id']=='$id'][0]; print(e['status'], e.get('commit','-'), 'hangs' if e.get('hangs') else 'nohang')")
     st=$1; commit=$2; hangs=$3
     ./check "$p" --replay "$f" >/tmp/vw_head_$$ 2>&1; b=$?
